@@ -9,6 +9,7 @@ import (
 	"os"
 	"os/exec"
 	"path/filepath"
+	"sort"
 	"strings"
 	"sync"
 	"time"
@@ -91,6 +92,17 @@ func (x *Exec) emitHeader(texts []string) string {
 	}
 	for _, a := range x.sym.strAxioms(used) {
 		b.WriteString(a)
+		b.WriteByte('\n')
+	}
+	var gk []string
+	for k := range x.sym.ground {
+		if strings.Contains(all, k) {
+			gk = append(gk, k)
+		}
+	}
+	sort.Strings(gk)
+	for _, k := range gk {
+		b.WriteString(x.sym.ground[k])
 		b.WriteByte('\n')
 	}
 	return b.String()
